@@ -8,7 +8,7 @@ Mappings: PersistCacheMappings.tla (MappingsCache with its save file; eviction a
           order as nondeterministic decisions) model-checked; the operation sequences TLC explored
           plus seeded random longer ones are executed on the real MappingsCache and the recorded
           decisions/observations validated by PersistCacheMappingsTrace.tla (I->S)."""
-import json, random
+import json, os, random
 from vlib import Infra
 
 MAP_CONSTS = {"CapDiv": 1024, "sizes": "len*5/4+32", "markers": [0, -1, -2]}
@@ -38,15 +38,17 @@ def maximal(behs):
 # ------------------------------------------------------------------------------ mappings
 def mappings_model(ctx):
     th = ctx.thorough
-    mc = ctx.tlc("PersistCacheMappingsMC", "PersistCacheMappings_mc_big.cfg" if th else "PersistCacheMappings_mc.cfg",
-                 timeout=3000 if th else 600, coverage=th, name="mappings model",
-                 constants=dict(MAP_CONSTS, MaxOps=5 if th else 4))
-    ctx.require_model_ok(mc, "PersistCacheMappings invariants")
+    if th:
+        mc = ctx.tlc("PersistCacheMappingsMC", "PersistCacheMappings_mc_big.cfg", timeout=3000, coverage=True,
+                     name="mappings model", constants=dict(MAP_CONSTS, MaxOps=5))
+        ctx.require_model_ok(mc, "PersistCacheMappings invariants")
     vi = ctx.tlc("PersistCacheMappingsMC", "PersistCacheMappings_victims_big.cfg" if th else "PersistCacheMappings_victims.cfg",
                  timeout=3000 if th else 600, name="eviction rule: literal transcription = characterisation",
                  constants={"CapDiv": 2})
     ctx.require_model_ok(vi, "VictimsAgree")
-    # the two repaired defects are visible at the design level: the original code's model violates the property
+    if not th:
+        return
+    # the two repaired defects are visible at the design level: the model of the original code violates the property
     for cfg, inv in (("PersistCacheMappings_orig_ttl.cfg", ("invariant:ReloadSame", "invariant:FileSync")),
                      ("PersistCacheMappings_orig_dup.cfg", ("invariant:Accounting",))):
         r = ctx.tlc("PersistCacheMappingsMC", cfg, timeout=600, name="model of the code before the repair: " + cfg,
@@ -62,14 +64,16 @@ def mappings_trace(ctx, path, cfg, stage):
 
 def mappings_impl(ctx):
     th = ctx.thorough
-    beh = ctx.tlc("PersistCacheMappingsMC", "PersistCacheMappings_beh.cfg", timeout=600, name="mappings behaviour export")
-    ctx.require_model_ok(beh, "mappings behaviour export")
+    # exhaustive over the small alphabet, all invariants checked, every explored behaviour exported
+    beh = ctx.tlc("PersistCacheMappingsMC", "PersistCacheMappings_beh.cfg", timeout=900,
+                  name="mappings model (small alphabet) + behaviour export", constants=dict(MAP_CONSTS, MaxOps=4))
+    ctx.require_model_ok(beh, "PersistCacheMappings invariants / behaviour export")
     bs = maximal(dedupe(beh.behaviours))
     rnd = random.Random(ctx.seed)
     rnd.shuffle(bs)
-    take = bs[: (6000 if th else 1200)]
+    take = bs[: (6000 if th else 600)]
     res, out, rc = ctx.go_test("internal/pcache", "TestVerifC21Mappings", inp=take,
-                               env={"VERIF_NRANDOM": 6000 if th else 700}, timeout=1200)
+                               env={"VERIF_NRANDOM": 6000 if th else 400}, timeout=1200)
     res = ctx.need_result(res, out, rc, "TestVerifC21Mappings")
     c = res.get("consts", {})
     if c.get("elementSizeMem_a") != 33 or c.get("elementSizeMem_8") != 42:
@@ -102,10 +106,87 @@ def mappings_impl(ctx):
     for s in res.get("samples", [])[:3]:
         ctx.ev.sample(s)
 
+# ------------------------------------------------------------------------------ chunks
+CHUNK_CONSTS = {"Half": 2, "Max": 4, "ChunkSize": 1 << 20, "header": 8, "hash": 16}
+
+
+def chunks_model(ctx):
+    th = ctx.thorough
+    mc = ctx.tlc("PersistCacheChunksMC", "PersistCacheChunks_mc_big.cfg" if th else "PersistCacheChunks_mc.cfg",
+                 timeout=3000 if th else 600, coverage=th, name="chunks model",
+                 constants=dict(CHUNK_CONSTS, MaxOps=13 if th else 11, MaxDamage=2 if th else 1))
+    ctx.require_model_ok(mc, "PersistCacheChunks invariants")
+
+
+def sim_behaviours(ctx, cfg, num, per_walk, rnd, name):
+    sim = ctx.tlc("PersistCacheChunksMC", cfg, simulate=(num, 31), timeout=1500, name=name)
+    ctx.require_model_ok(sim, name)
+    # TLC prints the walk and its siblings at the last level: keep per_walk of them
+    groups = {}
+    for b in dedupe(sim.behaviours):
+        groups.setdefault(json.dumps(b[:-1], sort_keys=True), []).append(b)
+    out = []
+    for k in sorted(groups):
+        g = groups[k]
+        rnd.shuffle(g)
+        out += g[:per_walk]
+    return [b for b in out if any(s["a"] == "Read" for s in b)]
+
+
+def chunks_replay(ctx, behs, mode, stage, **kw):
+    th = ctx.thorough
+    res, out, rc = ctx.go_test("internal/data_model", "TestVerifC21Chunks", inp=behs,
+                               env={"VERIF_HALF": CHUNK_CONSTS["Half"], "VERIF_MODE": mode,
+                                    "VERIF_VARIANTS_REAL": 5 if th else 2, "VERIF_VARIANTS_SMALL": 128 if th else 10,
+                                    "VERIF_FILE_EVERY": 5 if th else 0}, timeout=2400)
+    res = ctx.need_result(res, out, rc, "TestVerifC21Chunks " + mode)
+    c = res.get("consts", {})
+    if (c.get("ChunkSize"), c.get("chunkHeaderSize"), c.get("chunkHashSize")) != (1 << 20, 8, 16):
+        raise Infra("chunk format constants changed (%s): PersistCacheChunks must be re-instantiated" % c)
+    if c.get("flushAtCells") != CHUNK_CONSTS["Half"] or not c.get("limitOK"):
+        raise Infra("the writer's flush threshold / hard limit changed (%s): re-instantiate Half/Max" % c)
+    cnt = res.get("counters", {})
+    n = ctx.replay_s2i_mismatches(res, stage)
+    if cnt.get("layout_mismatch") and not n:
+        raise Infra("the real file layout differs from the model's (%s): re-transcribe PersistCacheChunks" % res.get("notes", [])[:2])
+    ctx.ev.add_impl("PersistCacheChunks behaviours reproduced by ChunkedStorage2 (%s)" % stage, 0 if n else res["replayed"],
+                    steps=res["steps"], concrete_runs=cnt.get("runs_" + mode, 0),
+                    err_flag_differences=cnt.get("err_flag_diff", 0), **kw)
+    for s in res.get("samples", [])[:1]:
+        ctx.ev.sample({"chunks_behaviour_" + mode: s[:10]})
+
+
+def chunks_impl(ctx):
+    th = ctx.thorough
+    rnd = random.Random(ctx.seed + 21)
+    behs = sim_behaviours(ctx, "PersistCacheChunks_sim.cfg", 2500 if th else 200, 3 if th else 1, rnd,
+                          "chunks: simulated long behaviours (real flush threshold)")
+    nsim = len(behs)
+    if th:
+        ex = ctx.tlc("PersistCacheChunksMC", "PersistCacheChunks_beh.cfg", timeout=1500,
+                     name="chunks: exhaustive short behaviours")
+        ctx.require_model_ok(ex, "chunks behaviour export")
+        short = [b for b in maximal(dedupe(ex.behaviours)) if any(s["a"] == "Read" for s in b)]
+        rnd.shuffle(short)
+        behs += short[:12000]
+    chunks_replay(ctx, behs, "real", "chunks-real-unit", simulated=nsim, exhaustive_short=len(behs) - nsim)
+    small = sim_behaviours(ctx, "PersistCacheChunks_sim_small.cfg", 1500 if th else 150, 3 if th else 1, rnd,
+                           "chunks: simulated long behaviours (small items, one chunk per save)")
+    chunks_replay(ctx, small, "small", "chunks-small-unit", simulated=len(small))
+
 
 def run(ctx):
-    mappings_model(ctx)
-    mappings_impl(ctx)
+    only = os.environ.get("VERIF_C21_ONLY", "")   # development aid: "chunks" / "mappings" = conformance stage only
+    if only:
+        ctx.log("VERIF_C21_ONLY=%s: model-checking stages skipped" % only)
+    if not only:
+        chunks_model(ctx)
+    if only in ("", "chunks"):
+        chunks_impl(ctx)
+    if not only:
+        mappings_model(ctx)
+    if only in ("", "mappings"):
+        mappings_impl(ctx)
     ctx.ev.set("exhaustive", True)
     ctx.ev.assume("xxh3-128 is treated as collision free (a corrupted chunk never keeps its hash)")
     ctx.ev.assume("MappingsCache is driven single-threaded; timestamps stay far below 2^32")
